@@ -138,30 +138,61 @@ func GenNested(t *rapid.T, opt NestedOptions) *Nested {
 		}
 		var st gtab.Subtable
 		tp := uint16(5)
-		switch rapid.IntRange(0, 4).Draw(t, "ctxFormat") {
+		// class tables for the class-based formats: base glyph g has class g
+		classes := classdef.Table{1: 1, 2: 2, 3: 3}
+		cls := func(gg []glyph.ID) []uint16 {
+			res := make([]uint16, len(gg))
+			for k, x := range gg {
+				res[k] = uint16(x)
+			}
+			return res
+		}
+		var back, ahead []glyph.ID
+		format := rapid.IntRange(0, 7).Draw(t, "ctxFormat")
+		if format >= 3 {
+			for k := rapid.IntRange(0, 1).Draw(t, "nBacktrack"); k > 0; k-- {
+				back = append(back, g("backtrack"))
+			}
+			for k := rapid.IntRange(0, 2).Draw(t, "nLookahead"); k > 0; k-- {
+				ahead = append(ahead, g("lookahead"))
+			}
+		}
+		switch format {
 		case 0:
 			st = &gtab.SeqContext1{Cov: CovTable([]glyph.ID{first}), Rules: [][]*gtab.SeqRule{{{Input: input, Actions: actions}}}}
-		case 1, 2:
+		case 1:
+			rules := make([][]*gtab.ClassSeqRule, 4)
+			rules[first] = []*gtab.ClassSeqRule{{Input: cls(input), Actions: actions}}
+			st = &gtab.SeqContext2{Cov: CovTable([]glyph.ID{first}), Input: classes, Rules: rules}
+		case 2:
 			st = &gtab.SeqContext3{Input: sets, Actions: actions}
+		case 3:
+			tp = 6
+			st = &gtab.ChainedSeqContext1{Cov: CovTable([]glyph.ID{first}), Rules: [][]*gtab.ChainedSeqRule{{{Backtrack: back, Input: input, Lookahead: ahead, Actions: actions}}}}
+		case 4:
+			tp = 6
+			rules := make([][]*gtab.ChainedClassSeqRule, 4)
+			rules[first] = []*gtab.ChainedClassSeqRule{{Backtrack: cls(back), Input: cls(input), Lookahead: cls(ahead), Actions: actions}}
+			st = &gtab.ChainedSeqContext2{Cov: CovTable([]glyph.ID{first}), Backtrack: classes, Input: classes, Lookahead: classes, Rules: rules}
 		default:
 			// backtrack and lookahead reach beyond the glyphs of the rule's own
 			// input - when the rule runs as a nested lookup, beyond the match
 			// window of the rule that called it
+			tp = 6
 			ch := &gtab.ChainedSeqContext3{Input: sets, Actions: actions}
-			for k := rapid.IntRange(0, 1).Draw(t, "nBacktrack"); k > 0; k-- {
-				ch.Backtrack = append(ch.Backtrack, coverage.Set{g("backtrack"): true})
+			for _, x := range back {
+				ch.Backtrack = append(ch.Backtrack, coverage.Set{x: true})
 			}
-			for k := rapid.IntRange(0, 2).Draw(t, "nLookahead"); k > 0; k-- {
-				set := coverage.Set{g("lookahead"): true}
+			for _, x := range ahead {
+				set := coverage.Set{x: true}
 				if rapid.IntRange(0, 2).Draw(t, "lookaheadWide") == 0 {
-					for _, x := range bases {
-						set[x] = true
+					for _, y := range bases {
+						set[y] = true
 					}
 				}
 				ch.Lookahead = append(ch.Lookahead, set)
 			}
 			st = ch
-			tp = 6
 		}
 		ll[i] = &gtab.LookupTable{Meta: meta(tp, "ctxFlags"), Subtables: []gtab.Subtable{st}}
 	}
